@@ -78,7 +78,7 @@ func (fr *Frame) execCall(c *ssa.CallCommon, instr *ssa.Call, cond string, st *S
 			}
 			return fr.callClosure(fv.Clo, args, resT, cond, st, nil)
 		}
-		return fr.havocCall("dynamic call", c, args, resT, cond, st)
+		return fr.dynCall(fv, c, args, resT, cond, st)
 	}
 	if mc, ok := c.Value.(*ssa.MakeClosure); ok {
 		clo := fr.val(mc).Clo
@@ -306,6 +306,12 @@ func (fr *Frame) applyContract(callee *ssa.Function, sp *spec.FuncSpec, args []V
 	}
 	env := &SpecEnv{vc: vc, fr: fr, st: st, names: map[string]Val{}, bound: map[string]Val{}}
 	env.pkg = calleePkg(callee)
+	if o := callee.Origin(); o != nil && o.TypeParams().Len() == len(callee.TypeArgs()) {
+		env.typeArgs = map[string]types.Type{}
+		for i, ta := range callee.TypeArgs() {
+			env.typeArgs[o.TypeParams().At(i).Obj().Name()] = ta
+		}
+	}
 	names := calleeParamNames(callee, sp)
 	for i, n := range names {
 		if i < len(args) && n != "" && n != "_" {
@@ -968,6 +974,8 @@ func (fr *Frame) modelExternal(callee *ssa.Function, c *ssa.CallCommon, args []V
 			app = "(" + fname + " " + strings.Join(terms, " ") + ")"
 		}
 		return Val{T: resT, Term: "(emk " + app + ")"}, true
+	case "sort.Strings", "sort.Slice", "sort.SliceStable":
+		return fr.modelSort(q, c, args, resT, cond, st), true
 	case "errors.New":
 		vc.declareFun("errors_new", []string{"String"}, "Int")
 		return Val{T: resT, Term: fmt.Sprintf("(emk (errors_new %s))", vc.term(st, args[0]))}, true
@@ -1142,4 +1150,201 @@ func sortCells(cl []*Cell) {
 			cl[j], cl[j-1] = cl[j-1], cl[j]
 		}
 	}
+}
+
+
+// modelSort models sort.Strings / sort.Slice / sort.SliceStable (A6): afterwards the slice is a
+// permutation of what it was (witnessed by an injective index map and its inverse) and is ordered:
+// for sort.Strings by <=; for sort.Slice by the comparison closure, which is executed symbolically
+// once on two fresh indices and generalised (only loop-free closures without calls qualify).
+func (fr *Frame) modelSort(q string, c *ssa.CallCommon, args []Val, resT types.Type, cond string, st *State) Val {
+	vc := fr.vc
+	vc.Assumed["A6: "+q+" leaves a permutation of the slice that is ordered by the given order"] = true
+	x := args[0]
+	// sort.Slice takes `any`: recover the slice value behind the MakeInterface
+	if mi, ok := c.Args[0].(*ssa.MakeInterface); ok {
+		x = fr.val(mi.X)
+	}
+	stt, ok := x.T.Underlying().(*types.Slice)
+	if !ok || (x.Obj == nil && x.Home == nil) {
+		vc.outside("%s on a value that is not an identifiable slice", q)
+		return Val{T: resT}
+	}
+	srt := vc.S.Sort(x.T)
+	es := vc.S.Sort(stt.Elem())
+	old := vc.define("presort", srt, vc.term(st, x))
+	nw := vc.fresh("sorted", srt)
+	ln := vc.sliceLen(srt, old)
+	vc.n++
+	pi, inv := fmt.Sprintf("perm!%d", vc.n), fmt.Sprintf("perminv!%d", vc.n)
+	vc.declareFun(pi, []string{"Int"}, "Int")
+	vc.declareFun(inv, []string{"Int"}, "Int")
+	vc.fact(fmt.Sprintf("(= (len_%s %s) %s)", srt, nw, ln))
+	vc.fact(fmt.Sprintf("(= (nil_%s %s) (nil_%s %s))", srt, nw, srt, old))
+	vc.fact(fmt.Sprintf("(forall ((?i Int)) (! (=> (and (<= 0 ?i) (< ?i %s)) (and (<= 0 (%s ?i)) (< (%s ?i) %s) (= (%s (%s ?i)) ?i) (= (select (arr_%s %s) ?i) (select (arr_%s %s) (%s ?i))))) :pattern ((select (arr_%s %s) ?i)) :pattern ((%s ?i))))", ln, pi, pi, ln, inv, pi, srt, nw, srt, old, pi, srt, nw, pi))
+	vc.fact(fmt.Sprintf("(forall ((?j Int)) (! (=> (and (<= 0 ?j) (< ?j %s)) (and (<= 0 (%s ?j)) (< (%s ?j) %s) (= (%s (%s ?j)) ?j))) :pattern ((select (arr_%s %s) ?j)) :pattern ((%s ?j))))", ln, inv, inv, ln, pi, inv, srt, old, inv))
+	write := func(v string) {
+		if x.Obj != nil {
+			vc.store(st, &Loc{Cell: x.Obj}, v)
+		} else {
+			vc.store(st, x.Home, v)
+		}
+	}
+	write(nw)
+	switch q {
+	case "sort.Strings":
+		vc.fact(fmt.Sprintf("(forall ((?i Int) (?j Int)) (! (=> (and (<= 0 ?i) (< ?i ?j) (< ?j %s)) (str.<= (select (arr_%s %s) ?i) (select (arr_%s %s) ?j))) :pattern ((select (arr_%s %s) ?i) (select (arr_%s %s) ?j))))", ln, srt, nw, srt, nw, srt, nw, srt, nw))
+	default:
+		less := args[1].Clo
+		if less == nil || less.Fn.Blocks == nil || len(less.Fn.Blocks) != 1 {
+			vc.warn("%s: comparison is not a single-block closure; order of the result is unknown", q)
+			break
+		}
+		for _, in := range less.Fn.Blocks[0].Instrs {
+			if _, isCall := in.(*ssa.Call); isCall {
+				vc.warn("%s: comparison closure contains a call; order of the result is unknown", q)
+				return Val{T: resT}
+			}
+		}
+		ci, cj := vc.fresh("sorti", "Int"), vc.fresh("sortj", "Int")
+		guard := vc.fresh("sortguard", "Bool")
+		vc.fact(fmt.Sprintf("(= %s (and (<= 0 %s) (< %s %s) (<= 0 %s) (< %s %s)))", guard, ci, ci, ln, cj, cj, ln))
+		nd, nf := len(vc.decls), len(vc.facts)
+		sandbox := st.clone()
+		r := fr.callClosure(less, []Val{{T: types.Typ[types.Int], Term: ci}, {T: types.Typ[types.Int], Term: cj}}, types.Typ[types.Bool], and(cond, guard), sandbox, nil)
+		if len(vc.decls) != nd {
+			vc.warn("%s: comparison closure is too complex to generalise; order of the result is unknown", q)
+			break
+		}
+		// facts produced inside the sandbox that mention the fresh indices are generalised together with the result
+		body := r.Term
+		var keep, keepG, extra []string
+		for k := nf; k < len(vc.facts); k++ {
+			f := vc.facts[k]
+			if strings.Contains(f, ci) || strings.Contains(f, cj) || strings.Contains(f, guard) {
+				extra = append(extra, f)
+			} else {
+				keep = append(keep, f)
+				keepG = append(keepG, vc.fgroup[k])
+			}
+		}
+		vc.facts = append(vc.facts[:nf], keep...)
+		vc.fgroup = append(vc.fgroup[:nf], keepG...)
+		subst := func(t string) string {
+			// sorted[b] is not less than sorted[a] for b < a: less(a, b) is false
+			t = strings.ReplaceAll(t, ci, "?a")
+			t = strings.ReplaceAll(t, cj, "?b")
+			t = strings.ReplaceAll(t, guard, "true")
+			return t
+		}
+		hyp := []string{"(<= 0 ?b)", "(< ?b ?a)", fmt.Sprintf("(< ?a %s)", ln)}
+		for _, e := range extra {
+			hyp = append(hyp, subst(e))
+		}
+		vc.fact(implies(cond, fmt.Sprintf("(forall ((?a Int) (?b Int)) (=> (and %s) (not %s)))", strings.Join(hyp, " "), subst(body))))
+		_ = es
+	}
+	return Val{T: resT}
+}
+
+
+// dynName is the uninterpreted "apply" symbol for function values of one signature.
+func (vc *VC) dynName(sig *types.Signature) (string, []string, []string) {
+	var as, rs []string
+	for i := 0; i < sig.Params().Len(); i++ {
+		as = append(as, vc.S.Sort(sig.Params().At(i).Type()))
+	}
+	for i := 0; i < sig.Results().Len(); i++ {
+		rs = append(rs, vc.S.Sort(sig.Results().At(i).Type()))
+	}
+	return "apply_" + sanitize(strings.Join(as, "_")+"__"+strings.Join(rs, "_")), as, rs
+}
+
+// dynCall models a call through a function value whose target is not known statically. If no
+// argument is a pointer (nothing reachable can be written) and there are results, the call is
+// treated as the application of an uninterpreted function of the function value and the
+// arguments; for every function of /repo with a pure contract that has been turned into a
+// function value in this unit, apply(fn_F, args) equals F(args) as constrained by F's contract.
+func (fr *Frame) dynCall(fv Val, c *ssa.CallCommon, args []Val, resT types.Type, cond string, st *State) Val {
+	vc := fr.vc
+	sig, ok := c.Value.Type().Underlying().(*types.Signature)
+	if !ok || fv.Term == "" || sig.Results().Len() == 0 {
+		return fr.havocCall("dynamic call", c, args, resT, cond, st)
+	}
+	for _, a := range args {
+		if a.Loc != nil {
+			return fr.havocCall("dynamic call with pointer arguments", c, args, resT, cond, st)
+		}
+		switch a.T.Underlying().(type) {
+		case *types.Pointer:
+			return fr.havocCall("dynamic call with pointer arguments", c, args, resT, cond, st)
+		}
+	}
+	vc.Assumed["function values called dynamically without pointer arguments are deterministic functions of their arguments (they are validators / pure callbacks in /repo)"] = true
+	name, as, rs := vc.dynName(sig)
+	var terms []string
+	for _, a := range args {
+		terms = append(terms, vc.term(st, a))
+	}
+	var res []Val
+	for i, r := range rs {
+		n := name
+		if i > 0 {
+			n += fmt.Sprintf("_r%d", i)
+		}
+		vc.declareFun(n, append([]string{"Int"}, as...), r)
+		res = append(res, Val{T: sig.Results().At(i).Type(), Term: "(" + n + " " + strings.Join(append([]string{fv.Term}, terms...), " ") + ")"})
+	}
+	return packResults(res, resT)
+}
+
+// linkFuncValue is called when a /repo function is used as a value: it ties apply(fn_F, args)
+// to the pure function symbol of F, instantiating F's contract for symbolic arguments.
+func (fr *Frame) linkFuncValue(f *ssa.Function) {
+	vc := fr.vc
+	key := "funcval:" + FuncKey(f)
+	if vc.wf[key] {
+		return
+	}
+	vc.wf[key] = true
+	id := vc.funcID(f)
+	vc.tagsFn = append(vc.tagsFn, id)
+	for _, o := range vc.tagsFn[:len(vc.tagsFn)-1] {
+		vc.fact(fmt.Sprintf("(not (= %s %s))", id, o))
+	}
+	sp := vc.W.SpecFor(f)
+	if sp == nil || !sp.Pure || f.Signature.Recv() != nil || f.Signature.Results().Len() != 1 {
+		return
+	}
+	sig := f.Signature
+	name, as, _ := vc.dynName(sig)
+	rsort := vc.S.Sort(sig.Results().At(0).Type())
+	vc.declareFun(name, append([]string{"Int"}, as...), rsort)
+	var decls, vars []string
+	var args []Val
+	for i := 0; i < sig.Params().Len(); i++ {
+		v := fmt.Sprintf("?p%d", i)
+		decls = append(decls, fmt.Sprintf("(%s %s)", v, as[i]))
+		vars = append(vars, v)
+		args = append(args, Val{T: sig.Params().At(i).Type(), Term: v})
+	}
+	pn := vc.pureName(f, args, 0)
+	vc.declareFun(pn, as, rsort)
+	app := "(" + pn + " " + strings.Join(vars, " ") + ")"
+	dyn := "(" + name + " " + strings.Join(append([]string{id}, vars...), " ") + ")"
+	// contract of F for arbitrary arguments
+	env := &SpecEnv{vc: vc, st: NewState(), names: map[string]Val{}, bound: map[string]Val{}, pkg: calleePkg(f)}
+	env.old = env.st
+	for i, n := range calleeParamNames(f, sp) {
+		if i < len(args) {
+			env.bound[n] = args[i]
+		}
+	}
+	env.results = []Val{{T: sig.Results().At(0).Type(), Term: app}}
+	env.resultNames = resultNames(f, sp)
+	body := []string{fmt.Sprintf("(= %s %s)", dyn, app)}
+	for _, en := range sp.Ensures {
+		body = append(body, env.compileBool(en.Expr))
+	}
+	vc.fact(fmt.Sprintf("(forall (%s) (! (and %s) :pattern (%s) :pattern (%s)))", strings.Join(decls, " "), strings.Join(body, " "), dyn, app))
 }
